@@ -266,6 +266,10 @@ class SpecEval:
             hi = self.ev(n.slice.upper, ctx) if n.slice.upper else None
             if v.ty == 'tok':
                 v = VS(strz(v))
+            if v.ty == 'list':
+                from .values import retype
+                if all(x.ty == 'E' for x in v.a['items']):
+                    v = retype(v, 'seq[E]')
             return ops.slice_of(v, Val('slice', None, lo=lo, hi=hi, step=None), None)
         k = self.ev(n.slice, ctx)
         if v.ty == 'seq':
@@ -342,5 +346,5 @@ class SpecEval:
             if name == 'isspace':
                 return VB(ops.str_isspace(s))
             if name == 'strip':
-                return VS(ops.str_strip(s))
+                return VS(ops.strip_z(s))
         raise Unsupported('spec method %s on %s' % (name, recv.ty))
